@@ -19,7 +19,8 @@ GROUP_TABLE_PROPS = {"C03", "C04", "C05", "C06", "C07", "C08", "C10"}
 def setup():
     from .extract import gen
     st = gen.regen(groups=True)
-    mods = [o["module"] for o in st["obligations"].values()] + (st["groups"]["modules"] if st.get("groups") else [])
+    mods = [o["module"] for o in st["obligations"].values()] + (st["groups"]["modules"] if st.get("groups") else []) \
+        + (st["sectors"]["modules"] if st.get("sectors") else [])
     ok, errs, out = common.lake_build([], timeout=6000)
     ok2, errs2, out2 = common.lake_build(mods, timeout=6000) if mods else (True, {}, "")
     if not (ok and ok2):
